@@ -7,7 +7,7 @@ from harness.drivers import c03
 
 chk = Check("C03X")
 cfg = {'shape': [2, 3, 2], 'hasw': True, 'op': 'cp', 'rank': [2], 'bad': 'none', 'at': 0, 'lens': [],
-       'fshapes': [[2, 2], [3, 2], [2, 2]], 'wlen': 2, 'coreshape': [], 'pshapes': []}
+       'fshapes': [[2, 2], [3, 2], [2, 2]], 'wlen': 2, 'coreshape': [], 'pshapes': [], 'dl': 0, 'pden': 1}
 ev = c03.execute({"id": "good", "cfg": cfg, "seed": 1, "k": 0, "draw": 0})
 evs = [ev]
 def mut(name, f):
@@ -22,13 +22,18 @@ mut("missing_field", lambda e: e["runs"]["core_object"].pop("vec"))
 mut("masked", lambda e: e["runs"]["core_tuple"]["masked"]["data"].__setitem__(0, 7))
 mut("shape_wrong", lambda e: e["in"]["fs"][0].__setitem__("shape", [4, 1]))
 mut("data_short", lambda e: e["in"]["fs"][0]["data"].pop())
-cfg2 = dict(cfg, bad="fcols", at=2, fshapes=[[2, 2], [3, 3], [2, 2]])
+cfg2 = dict(cfg, bad="fcols", at=2, dl=1, fshapes=[[2, 2], [3, 3], [2, 2]])
 e2 = c03.execute({"id": "inv_good", "cfg": cfg2, "seed": 1, "k": 0, "draw": 0}); evs.append(e2)
 e3 = copy.deepcopy(e2); e3["id"] = "inv_accepted"; e3["runs"]["core_tuple"]["rejected"] = False; evs.append(e3)
+e4 = copy.deepcopy(e2); e4["id"] = "inv_converted"; e4["runs"]["core_convert"]["rejected"] = False; evs.append(e4)
+cfg3 = dict(cfg, op="p2", shape=[2, 2], rank=[2], lens=[3, 2], bad="nonorth_zero", at=1, fshapes=[[2, 2], [2, 2], [2, 2]], pshapes=[[3, 2], [2, 2]])
+e5 = c03.execute({"id": "inv_p2_good", "cfg": cfg3, "seed": 1, "k": 0, "draw": 0}); evs.append(e5)
+e6 = copy.deepcopy(e5); e6["id"] = "inv_p2_accepted"; e6["runs"]["einsum_object"]["rejected"] = False; evs.append(e6)
 rej = chk.validate("FactorizedTrace", evs)
 for r in sorted(rej): print(r)
 print("machinery:", chk.machinery)
 ids = {r[0] for r in rej}
-assert not chk.machinery and "good" not in ids and "inv_good" not in ids and len(ids) == len(evs) - 2, "self-test failed"
-print("OK: %d corrupted events rejected, 2 genuine events accepted" % len(ids))
+good = {"good", "inv_good", "inv_p2_good"}
+assert not chk.machinery and not (ids & good) and len(ids) == len(evs) - len(good), ("self-test failed", ids & good)
+print("OK: %d corrupted events rejected, %d genuine events accepted" % (len(ids), len(good)))
 shutil.rmtree(chk.work)
